@@ -121,9 +121,22 @@ def _atoms_of(tree):
             yield from _atoms_of(x)
 
 
+NOCONV = ("in", "not in", "~=", "===")
+
+
+def _has_noconv_literal_left(text):
+    try:
+        return any(t[4] and t[2] in NOCONV for t in _atoms_of(parse_marker_text(text)))
+    except MarkerTextError:
+        return False
+
+
 def _work(task):
-    src, texts = task
-    dom = mx.domain(src)
+    src, texts, tag = task
+    # texts with a literal-on-the-left atom whose operator has no converse (the known MarkerExpression.reversed finding) are analysed in
+    # their own interpreter instance: such atoms are stored in the library's lru_caches under the key of their non-reversed twin and
+    # would otherwise be handed to unrelated texts analysed later in the same process (that history effect is C10's finding)
+    dom = mx.domain(src, tag)
     fails, n = [], 0
     for text in texts:
         n += 1
@@ -300,8 +313,10 @@ def run(chk):
         a, b, c = rnd.sample(atoms, 3)
         form = rnd.randrange(5)
         texts.append([f"{a} or {b} and {c}", f"({a} or {b}) and {c}", f"{a} and ({b} or {c})", f"{a} and {b} or {c}", f"({a} and {b}) or ({a} and {c})"][form])
+    clean = [t for t in texts if not _has_noconv_literal_left(t)]
+    tainted = [t for t in texts if _has_noconv_literal_left(t)]
     per = max(1, (len(texts) + chk.jobs * 3 - 1) // (chk.jobs * 3))
-    tasks = [(src, texts[i:i + per]) for i in range(0, len(texts), per)]
+    tasks = [(src, clean[i:i + per], None) for i in range(0, len(clean), per)] + [(src, tainted[i:i + per], "noconv") for i in range(0, len(tainted), per)]
     total = 0
     for r in parallel(_work, tasks, chk.jobs):
         total += r["n"]
